@@ -20,4 +20,4 @@ NEXT SNext
 VIEW View
 CHECK_DEADLOCK FALSE
 INVARIANTS TypeOK C09design
-PROPERTIES PC01 PC02 PC03 PC04 PC05 PC06 PC07 PC08 PC11 PC12 PC13 PC15 PC16
+PROPERTIES PC01 PC02 PC03 PC04 PC05 PC06 PC07 PC08 PC11 PC12 PC13 PC15 PC16 PAudit
